@@ -39,6 +39,11 @@ def main():
         agg = {}
         for o, r in zip(rep.obligations, rep.results):
             agg.setdefault((o.clause, o.kind), []).append((o, r))
+        if getattr(rep, "unit", None) is not None and rep.status == "ok":
+            for cl in rep.contract.ensures:
+                if not any(k[0] == cl for k in agg):
+                    print(f"   {rep.contract.ident}.{cl:40s} VACUOUS: no obligation generated")
+                    bad += 1
         for (cl, kind), lst in agg.items():
             if kind == "cover":
                 ok = any(r["result"] == "sat" for _, r in lst)
